@@ -798,9 +798,11 @@ static void plan_c15(void)
     struct plan pl; memset(&pl, 0, sizeof pl);
     pl.prop = "C15"; pl.strict = 0; pl.tmax_mode = 0; pl.do_decode = 1; pl.do_recon_all = 1; pl.ex_n = thorough ? 10 : 8; pl.pres_mode = 1;
     struct shape *sh; int ns; collect_shapes(&sh, &ns, 1, 1, 1);
+    int isa_n = (int)vh_opt("isa_n", 32);
     for (int i = 0; i < ns; i++) {
         uint64_t a = (uint64_t)sh[i].k * word_bytes(sh[i].be);
         uint64_t L[3] = { 2 * a + 3, a, 0 };
+        if (is_isa(sh[i].be) && sh[i].k + sh[i].m > isa_n && !named_shape(&sh[i])) continue;
         for (int li = 0; li < 3; li++) {
             /* the oracle of this plan is the guard pages + read-only inputs (faults are attributed by the supervisor) and
              * "encode again after all that activity gives the same bytes" */
